@@ -396,19 +396,45 @@ def run(prog: Program, chk: Check):
             nkey += 1
             k = guards.subst(n.slice, cmf)
             kt = norm(k)
-            okk, why_ = False, f"`{kt}`"
-            if isinstance(k, ast.Attribute) and k.attr == "msg_type":
-                okk = True
-            elif kt in ("ALL_MESSAGE_TYPES", "cd.ALL_MESSAGE_TYPES"):
-                okk = True
-            elif isinstance(k, ast.Name) and k.id in loopvars and (loopvars[k.id].replace("list(", "").replace("tuple(", "").rstrip(")").endswith(".subs") or "self.subscriptions" in loopvars[k.id]):
-                okk = True
-            elif isinstance(k, ast.Call) and norm(k.func) == "int.from_bytes":
-                sg = next((kw.value for kw in k.keywords if kw.arg == "signed"), None)
-                okk = isinstance(sg, ast.Constant) and sg.value is True
-                why_ = f"`{kt[:90]}` decodes the id as an unsigned integer: a negative type id is filed under id + 2**32 and never matched by header.msg_type"
+            defs_of = {}
+            for a_ in walk_local(f.node):
+                if isinstance(a_, ast.Assign) and len(a_.targets) == 1 and isinstance(a_.targets[0], ast.Name):
+                    defs_of.setdefault(a_.targets[0].id, []).append(a_.value)
+                elif isinstance(a_, ast.AnnAssign) and isinstance(a_.target, ast.Name) and a_.value is not None:
+                    defs_of.setdefault(a_.target.id, []).append(a_.value)
+
+            def classify(e_, depth=0):
+                """(ok, reason) for one key expression; a local is judged by every value assigned to it"""
+                if isinstance(e_, ast.Attribute) and e_.attr == "msg_type":
+                    return True, ""
+                if norm(e_) in ("ALL_MESSAGE_TYPES", "cd.ALL_MESSAGE_TYPES"):
+                    return True, ""
+                if isinstance(e_, ast.Name) and e_.id in loopvars and (loopvars[e_.id].replace("list(", "").replace("tuple(", "").rstrip(")").endswith(".subs") or "self.subscriptions" in loopvars[e_.id]):
+                    return True, ""
+                if isinstance(e_, ast.Call) and norm(e_.func) == "int" and len(e_.args) == 1:
+                    return classify(e_.args[0], depth + 1)
+                if isinstance(e_, ast.Call) and norm(e_.func) == "int.from_bytes":
+                    sg = next((kw.value for kw in e_.keywords if kw.arg == "signed"), None)
+                    if isinstance(sg, ast.Constant) and sg.value is True:
+                        return True, ""
+                    return False, f"`{norm(e_)[:90]}` decodes the id as an unsigned integer: a negative type id is filed under id + 2**32 and never matched by header.msg_type"
+                if isinstance(e_, ast.Name) and e_.id in defs_of and depth < 4:
+                    for v_ in defs_of[e_.id]:
+                        ok_, why2 = classify(v_, depth + 1)
+                        if not ok_:
+                            return False, why2
+                    return True, ""
+                if isinstance(e_, ast.IfExp):
+                    for v_ in (e_.body, e_.orelse):
+                        ok_, why2 = classify(v_, depth + 1)
+                        if not ok_:
+                            return False, why2
+                    return True, ""
+                return False, f"`{norm(e_)[:90]}`, which is not the msg_type field of the control payload"
+
+            okk, why_ = classify(k)
             R12.decide(okk, fkey(f, f"key:{norm(n.slice)}:{par.attr if isinstance(par, ast.Attribute) else 'store'}"), where(f, n), f"key {kt[:60]}",
-                       f"{f.qual}: a subscription is filed under {why_}" + ("" if "unsigned" in why_ else ", which is not the msg_type field of the control payload"))
+                       f"{f.qual}: a subscription is filed under {why_}")
     if nkey < 4:
         raise AnalysisError(f"anchor vanished: keyed writes into self.subscriptions in the subscription handlers (found {nkey})")
 
